@@ -304,6 +304,13 @@ type c05RegStruct struct {
 	B string
 }
 
+// a registered type that is rendered by its own String method (finding F9)
+type c05RegDur int
+
+func (d c05RegDur) String() string { return strconv.Itoa(int(d)) + "s" }
+
+type c05RegDurHolder struct{ X interface{} }
+
 type c05Val struct {
 	kind string
 	txt  string
@@ -1331,7 +1338,54 @@ func c05WithRegistered(ts []reflect.Type, f func()) {
 	f()
 }
 
+// registeredWithMethod: a value of a registered safe type stays visible wherever it is held, also when the
+// type has a formatting method and the value sits in an interface-typed slice, map or field (finding F9).
+func (c *c05Ctx) registeredWithMethod(l *c05Law) {
+	c05WithRegistered([]reflect.Type{reflect.TypeOf(c05RegDur(0))}, func() {
+		d := c05RegDur(5)
+		ops := []struct {
+			txt string
+			v   interface{}
+		}{
+			{"c05RegDur(5)", d},
+			{"[]c05RegDur{5}", []c05RegDur{d}},
+			{"[]interface{}{c05RegDur(5)}", []interface{}{d}},
+			{"[]fmt.Stringer{c05RegDur(5)}", []fmt.Stringer{d}},
+			{"map[int]interface{}{1: c05RegDur(5)}", map[int]interface{}{1: d}},
+			{"c05RegDurHolder{c05RegDur(5)}", c05RegDurHolder{d}},
+			{"&c05RegDurHolder{c05RegDur(5)}", &c05RegDurHolder{d}},
+			{"[]interface{}{[]interface{}{c05RegDur(5)}}", []interface{}{[]interface{}{d}}},
+		}
+		for _, o := range ops {
+			for _, dir := range []string{"%v", "%s", "%d", "%8v", "%q"} {
+				if c.full() {
+					return
+				}
+				want := fmt.Sprintf(dir, o.v)
+				if strings.Contains(want, "%!") {
+					continue
+				}
+				call := "with RegisterSafeType{c05RegDur (has a String method)}: " + fmt.Sprintf("Sprintf(%q, %s)", dir, o.txt)
+				out := string(Sprintf(dir, o.v))
+				l.cases++
+				l.nontrivial++
+				// map keys of type int are unsafe operands: compare only what must be visible
+				if strings.Contains(o.txt, "map[int]") {
+					if !strings.Contains(c05DelEnv(out), fmt.Sprintf(dir, d)) {
+						c.fail(call, out, "the rendering of a value of a registered safe type is not visible outside the envelopes")
+					}
+					continue
+				}
+				if c05DelEnv(out) != want {
+					c.fail(call, out, "the rendering of a value of a registered safe type is not visible outside the envelopes: envelopes deleted gives "+fmt.Sprintf("%q", c05DelEnv(out))+", fmt prints "+fmt.Sprintf("%q", want))
+				}
+			}
+		}
+	})
+}
+
 func (c *c05Ctx) registry(l *c05Law, tier int) {
+	c.registeredWithMethod(l)
 	types := []reflect.Type{reflect.TypeOf(c05RegInt(0)), reflect.TypeOf(c05RegStr("")), reflect.TypeOf(c05RegStruct{}), reflect.TypeOf(int32(0))}
 	names := []string{"c05RegInt", "c05RegStr", "c05RegStruct", "int32"}
 	before := len(c05SafeTypeRegistry)
